@@ -551,6 +551,7 @@ func (vlog *valueLog) createVlogFile() (*logFile, error) {
 	vlog.writableLogOffset.Store(vlogHeaderSize)
 	vlog.numEntriesWritten = 0
 	vlog.filesLock.Unlock()
+	verifPoint("persist.vlog.created", uint64(fid))
 
 	return lf, nil
 }
@@ -837,6 +838,7 @@ func (vlog *valueLog) write(reqs []*request) error {
 			if err := curlf.Sync(); err != nil {
 				vlog.opt.Errorf("Error while curlf sync: %v\n", err)
 			}
+			verifPoint("persist.vlog.synced", uint64(curlf.fid))
 		}
 	}()
 
@@ -926,6 +928,7 @@ func (vlog *valueLog) write(reqs []*request) error {
 
 		vlog.numEntriesWritten += uint32(written)
 		vlog.db.threshold.update(valueSizes)
+		verifPoint("persist.vlog.written", uint64(curlf.fid), uint64(vlog.woffset()), uint64(written))
 		// We write to disk here so that all entries that are part of the same transaction are
 		// written to the same vlog file.
 		if err := toDisk(); err != nil {
